@@ -12,6 +12,8 @@
 import Emu.Proofs.Listing
 import Emu.Proofs.ListingDelim2
 import Emu.Proofs.Gcs
+import Emu.Proofs.LeafTie.GreaterThanPrefix
+import Emu.Proofs.LeafTie.LessThanPrefix
 
 namespace Emu.Props.C11
 open Emu Emu.Gcs Emu.Proofs.Listing
@@ -146,5 +148,25 @@ example :
 
 example : FullStatement [[97, 47, 49], [97, 47, 50], [98], [99]] [] [47] 2 := by
   unfold FullStatement; decide
+
+/-! ### Tie T1: the repository's own text of the two prefix tests, and what pruning may skip
+
+`Emu.Generated.Leaf.greaterThanPrefix` / `lessThanPrefix` are regenerated from gcsemu.go by the
+leaf translator on every run.  The first is the early-exit test of the listing callback (the
+Model's `greaterThanPrefix`); the second is the file store's directory-pruning test. -/
+
+theorem source_greaterThanPrefix_is_the_models (item pfx : Bytes) :
+    Emu.Generated.Leaf.greaterThanPrefix item pfx = greaterThanPrefix item pfx :=
+  Emu.Proofs.LeafTie.greaterThanPrefix_tie item pfx
+
+/-- a name below a directory the file store's walk prunes (its path is `lessThanPrefix` the cursor
+    or the prefix) would not have contributed to the page -/
+theorem pruned_directories_lose_nothing (pfx delim cursor skip : Bytes) (max : Nat) (p : Page) (dir ext : Bytes)
+    (h : Emu.Generated.Leaf.lessThanPrefix dir cursor = true ∨ Emu.Generated.Leaf.lessThanPrefix dir pfx = true) :
+    Emu.Proofs.LeafTie.outward (pageStep pfx delim cursor skip max p (dir ++ ext)) = Emu.Proofs.LeafTie.outward p := by
+  rw [Emu.Proofs.LeafTie.lessThanPrefix_tie, Emu.Proofs.LeafTie.lessThanPrefix_tie] at h
+  exact Emu.Proofs.LeafTie.pruned_name_contributes_nothing pfx delim cursor skip max p dir ext h
+
+example : Emu.Generated.Leaf.lessThanPrefix [97] [98, 47] = true := by decide
 
 end Emu.Props.C11
